@@ -1,7 +1,7 @@
 SPECIFICATION JSpec
 CONSTANTS
-    Inputs <- MCInputs3x3
-    Configs <- MCConfigs3
+    Inputs <- MCInputsThorough
+    Configs <- MCConfigsThorough
 INVARIANTS
     JoinPairing
     Confluence
